@@ -73,6 +73,15 @@ def _build(pkg, placement, producer, timing, two_modules=False):
             return gen.s_keep("/c9/reader", h, [])
         return gen.s_call(h, [])
 
+    if _vm[0] == "producer_class_by_name":
+        # the producing statement sits behind a method of a class that is only handed over by name to an untracked runner
+        _ps0 = produce_stmt
+        pw0 = gen.add_fn(p, m0, "pwrap", const=45)
+        p["fns"][pw0]["stmts"] = [_ps0()]
+        kp0 = gen.add_cls(p, m0, "KProd", const=46, calls=pw0)
+
+        def produce_stmt():
+            return gen.s_clsref(kp0)
     if _vm[0] in ("producer", "both"):
         # the producing statement sits in a function that only a method of a class calls
         _ps = produce_stmt
@@ -313,8 +322,8 @@ def run(tier, seed):
                                 jobs.append((placement, producer, timing, edit, store, populated, idx % 2 == 0, idx * 10 + 4, "assign", "eval", None, True))
                             # one or both sides of the pipeline reached through a method of a class
                             if edit == "prod_const" and (timing != "never") and (tier != "quick" or store == "local"):
-                                for vi, vm in enumerate(("producer", "reader", "both")):
-                                    if tier == "quick" and (idx + vi) % 3 != 0 and not (placement == "top" and timing == "same_before"):
+                                for vi, vm in enumerate(("producer", "reader", "both", "producer_class_by_name")):
+                                    if tier == "quick" and (idx + vi) % 3 != 0 and not (placement == "top" and timing == "same_before") and not (vm == "producer_class_by_name" and placement in ("kept", "top")):
                                         continue
                                     jobs.append((placement, producer, timing, edit, store, populated, False, idx * 10 + 5 + vi, "assign", "eval", vm))
                             # the other syntactic positions of the load expression
